@@ -309,3 +309,45 @@ package evaluator
 //@   ensures[C10 cache] len(s.runes) == rlen(s.str.V) && off(s.runes) == 0 && contents(s.runes) == runes(s.str.V) && s.str == old(s.str) && s.str.V == old(s.str.V)
 //@   mustfail ensures[C10 canary] ok
 //@   modifies s.cur, s.runes, s.str.runeSlice, owned scope.values
+
+// ---- C08/C12: printing follows the insertion order ----
+
+//@ iface (v value) String() (s string)
+//@   trusted
+//@   modifies nothing
+
+//@ iface (v value) Repr() (s string)
+//@   trusted
+//@   modifies nothing
+
+//@ func (m *mapVal) String() (s string)
+//@   props C08 C12
+//@   requires m != nil && forall(i, int, 0 <= i && i < len(*m.Order) ==> m.Pairs[(*m.Order)[i]] != nil)
+//@   ensures[C08 C12 in-insertion-order] ncalls("(value).String") == len(*m.Order) && forall(j, int, 1 <= j && j <= len(*m.Order) ==> callarg("(value).String", j, 0) == m.Pairs[(*m.Order)[j-1]])
+//@   ensures[C08 text] ncalls("Join") == 1 && s == concat(concat("{", callres("Join", 1, 0)), "}")
+//@   modifies nothing
+//@   loop 1 modifies pairs[*]
+//@   loop 1 invariant -1 <= rangeindex && rangeindex < len(*m.Order) && ncalls("(value).String") == rangeindex + 1 && ncalls("Join") == 0 && fresh(pairs) && len(pairs) == rangeindex + 1
+//@   loop 1 invariant forall(j, int, 1 <= j && j <= rangeindex + 1 ==> callarg("(value).String", j, 0) == m.Pairs[(*m.Order)[j-1]])
+//@   loop 1 invariant forall(i, int, 0 <= i && i <= rangeindex ==> pairs[i] == concat(concat((*m.Order)[i], ":"), callres("(value).String", i + 1, 0)))
+
+//@ func (m *mapVal) Repr() (s string)
+//@   props C08 C12
+//@   requires m != nil && forall(i, int, 0 <= i && i < len(*m.Order) ==> m.Pairs[(*m.Order)[i]] != nil)
+//@   ensures[C08 C12 in-insertion-order] ncalls("(value).Repr") == len(*m.Order) && forall(j, int, 1 <= j && j <= len(*m.Order) ==> callarg("(value).Repr", j, 0) == m.Pairs[(*m.Order)[j-1]])
+//@   ensures[C08 text] ncalls("Join") == 1 && s == concat(concat("{", callres("Join", 1, 0)), "}")
+//@   modifies nothing
+//@   loop 1 modifies pairs[*]
+//@   loop 1 invariant -1 <= rangeindex && rangeindex < len(*m.Order) && ncalls("(value).Repr") == rangeindex + 1 && ncalls("Join") == 0 && fresh(pairs) && len(pairs) == rangeindex + 1
+//@   loop 1 invariant forall(j, int, 1 <= j && j <= rangeindex + 1 ==> callarg("(value).Repr", j, 0) == m.Pairs[(*m.Order)[j-1]])
+
+//@ func (a *arrayVal) String() (s string)
+//@   props C08
+//@   requires a != nil && forall(i, int, 0 <= i && i < len(*a.Elements) ==> (*a.Elements)[i] != nil)
+//@   ensures[C08 in-order] ncalls("(value).String") == len(*a.Elements) && forall(j, int, 1 <= j && j <= len(*a.Elements) ==> callarg("(value).String", j, 0) == (*a.Elements)[j-1])
+//@   ensures[C08 text] ncalls("Join") == 1 && s == concat(concat("[", callres("Join", 1, 0)), "]")
+//@   modifies nothing
+//@   loop 1 modifies elements[*]
+//@   loop 1 invariant -1 <= rangeindex && rangeindex < len(*a.Elements) && ncalls("(value).String") == rangeindex + 1 && ncalls("Join") == 0 && fresh(elements) && len(elements) == len(*a.Elements) && off(elements) == 0
+//@   loop 1 invariant forall(j, int, 1 <= j && j <= rangeindex + 1 ==> callarg("(value).String", j, 0) == (*a.Elements)[j-1])
+//@   loop 1 invariant forall(i, int, 0 <= i && i <= rangeindex ==> elements[i] == callres("(value).String", i + 1, 0))
